@@ -304,3 +304,98 @@ Proof.
   - apply N.ltb_lt in E1. assert (0 <? n = true) by (apply N.ltb_lt; lia). rewrite H. lia.
   - apply N.ltb_ge in E1. destruct (0 <? n) eqn:E0; [apply N.ltb_lt in E0 | apply N.ltb_ge in E0]; lia.
 Qed.
+
+(* objects of one direction *)
+Lemma objects_side (out : bool) ps :
+  small_structs_carry_no_objects ps ->
+  msum (fun p => if keep ps p then dirn out p (obj_all p) else 0) ps = msum (fun p => dirn out p (obj_inc p)) ps.
+Proof.
+  intro H. apply msum_ext. intros p Hp.
+  assert (A : dirn out p (obj_all p) = dirn out p (obj_inc p)).
+  { unfold dirn, obj_all, obj_inc. destruct (Bool.eqb (mp_out p) out); [|reflexivity].
+    destruct (mp_ty p) as [|q|n|sn fs] eqn:Et; try reflexivity.
+    destruct (mp_shape p) as [|cnt] eqn:Es; [|reflexivity].
+    destruct (is_small (MStruct sn fs)) eqn:Esm; [|reflexivity].
+    rewrite <- Et. apply (H p Hp). unfold is_small_struct_value, is_val, is_array. rewrite Es, Et. cbn [negb is_mstruct andb]. exact Esm. }
+  destruct (keep ps p) eqn:Ek; [exact A|].
+  (* dropped from the discrete slots: a bundled small value, which carries no object slot *)
+  assert (B : bundleable p = true).
+  { unfold keep, F1, F2 in Ek. destruct (bundleable p); [reflexivity|].
+    rewrite !Bool.andb_false_r in Ek. discriminate. }
+  rewrite <- A. unfold dirn, obj_all. destruct (Bool.eqb (mp_out p) out); [|reflexivity].
+  unfold bundleable, is_prim_value, is_small_struct_value, is_val, is_array in B.
+  destruct (mp_ty p) as [|q|n|sn fs] eqn:Et; destruct (mp_shape p) as [|cnt] eqn:Es;
+    cbn [negb is_prim is_mstruct andb orb] in B; try discriminate; try reflexivity.
+  symmetry. rewrite <- Et. apply (H p Hp). unfold is_small_struct_value, is_val, is_array. rewrite Es, Et. cbn [negb is_mstruct andb]. exact B.
+Qed.
+
+Lemma mult_single k c : mult k [c] = if k =? c then 1 else 0.
+Proof. rewrite mult_cons. unfold mult. cbn. lia. Qed.
+
+(* the counts word equals the section multiplicities of the slot sequence *)
+Theorem counts_are_multiplicities ps c :
+  small_structs_carry_no_objects ps ->
+  counter Debug ps = Ok c ->
+  nbi c = mult 0 (plan_secs ps) /\ nbo c = mult 1 (plan_secs ps) /\
+  noi c = mult 2 (plan_secs ps) /\ noo c = mult 3 (plan_secs ps).
+Proof.
+  intros H Hc. apply counter_closed in Hc. destruct Hc as (C0 & C1 & C2 & C3).
+  rewrite !mult_plan, !mult_single.
+  assert (P : forall p, mult 0 (psecs p) = dirn false p (if p_iface p then 0 else 1) /\
+                        mult 1 (psecs p) = dirn true p (if p_iface p then 0 else 1) /\
+                        mult 2 (psecs p) = dirn false p (obj_all p) /\
+                        mult 3 (psecs p) = dirn true p (obj_all p)) by (intro p; apply mult_psecs).
+  assert (R : forall (k : N) (g : mparam -> N), (forall p, mult k (psecs p) = g p) ->
+              msum (fun p => if keep ps p then mult k (psecs p) else 0) ps = msum (fun p => if keep ps p then g p else 0) ps).
+  { intros k g Hg. apply msum_ext. intros p _. now rewrite Hg. }
+  rewrite (R 0 _ (fun p => proj1 (P p))).
+  rewrite (R 1 _ (fun p => proj1 (proj2 (P p)))).
+  rewrite (R 2 _ (fun p => proj1 (proj2 (proj2 (P p))))).
+  rewrite (R 3 _ (fun p => proj2 (proj2 (proj2 (P p))))).
+  pose proof (buffers_side false ps (bi_of ps) eq_refl) as B0.
+  pose proof (buffers_side true ps (bo_of ps) eq_refl) as B1.
+  assert (K0 : forall p, Bool.eqb (mp_out p) false = true -> keep ps p = negb (bi_of ps && bundleable p)).
+  { intros p Hp. apply keep_in. destruct (mp_out p); [discriminate | reflexivity]. }
+  assert (K1 : forall p, Bool.eqb (mp_out p) true = true -> keep ps p = negb (bo_of ps && bundleable p)).
+  { intros p Hp. apply keep_out. destruct (mp_out p); [reflexivity | discriminate]. }
+  specialize (B0 K0). specialize (B1 K1).
+  rewrite (objects_side false ps H), (objects_side true ps H).
+  change (0 =? 1) with false. change (0 =? 0) with true. change (1 =? 1) with true. change (1 =? 0) with false.
+  change (2 =? 1) with false. change (2 =? 0) with false. change (3 =? 1) with false. change (3 =? 0) with false.
+  repeat split.
+  - rewrite C0. destruct (bo_of ps); lia.
+  - rewrite C1. destruct (bi_of ps); lia.
+  - rewrite C2. destruct (bo_of ps), (bi_of ps); lia.
+  - rewrite C3. destruct (bo_of ps), (bi_of ps); lia.
+Qed.
+
+(* ---- the whole envelope ---- *)
+Lemma no_objstruct_small ps : has_objstruct_value ps = false -> small_structs_carry_no_objects ps.
+Proof.
+  intros H p Hp Hs. unfold has_objstruct_value in H.
+  assert (E : objstruct_value p = false).
+  { destruct (objstruct_value p) eqn:E; [|reflexivity].
+    assert (existsb objstruct_value ps = true) by (apply existsb_exists; exists p; tauto). congruence. }
+  unfold objstruct_value in E. unfold is_small_struct_value in Hs.
+  apply andb_prop in Hs. destruct Hs as [Hs _]. rewrite Hs in E. cbn [andb] in E.
+  apply Bool.negb_false_iff in E. now apply N.eqb_eq in E.
+Qed.
+
+Lemma plan_secs_le3 ps : forallb (fun k => k <=? 3) (plan_secs ps) = true.
+Proof.
+  unfold plan_secs. apply forallb_forall. intros k Hk. apply in_map_iff in Hk.
+  destruct Hk as [s [<- _]]. destruct s; reflexivity.
+Qed.
+
+Theorem envelope_is_canonical ps c :
+  has_objstruct_value ps = false -> objarr_after_out ps = false ->
+  counter Debug ps = Ok c ->
+  nbi c <= 15 -> nbo c <= 15 -> noi c <= 15 -> noo c <= 15 ->
+  envelope_canonical (nbi c, nbo c, noi c, noo c) (plan_secs ps) = true.
+Proof.
+  intros H1 H2 Hc L0 L1 L2 L3.
+  destruct (counts_are_multiplicities ps c (no_objstruct_small ps H1) Hc) as (M0 & M1 & M2 & M3).
+  unfold envelope_canonical. rewrite (plan_sections_sorted ps H1 H2), plan_secs_le3.
+  rewrite <- M0, <- M1, <- M2, <- M3, !N.eqb_refl. unfold count_limit.
+  repeat (rewrite (proj2 (N.leb_le _ _)) by assumption). reflexivity.
+Qed.
